@@ -33,6 +33,14 @@
 //!     snapshot and Debug rendering of the whole `MemoryStorage` before/after).
 //! Which error a failing transaction reports is a don't-care (recorded in the
 //! outcome histogram).
+//!
+//! Violation keys (a violating transition is pruned, so one defect = one key):
+//!   C35:<create|blob|upload|upgrade>:host-panic        executor unwound
+//!   C35:<create|blob|upload|upgrade>:verdict           Ok/Err differs from the prediction
+//!   C35:failed-<create|blob|upload|upgrade>-changes-tables   Err, but the storage changed
+//!   C35:<contracts|slots|blobs|uploads|consensus_versions|state_transition_versions|
+//!        current_versions>:contents                    table differs from the reference
+//! `VERIF_C35_DEPTH=n` overrides the depth bound (experiments only).
 
 use fuel_asm::{
     op,
